@@ -41,6 +41,7 @@ class C15Gen:
         self.n = 0
         self.failed = []  # names that failed in a query and are not registered yet (look-ahead targets)
         self.swept = False
+        self.box_registered = False
         self.asked = []  # closed queries asked so far (re-asked later: the memoised / second answer)
 
     # ---------------------------------------------------------------- pickers
@@ -111,6 +112,10 @@ class C15Gen:
         elif self.n <= self.cfg.get("preamble", 0):
             client = "registrar"
             op = self.g_constructive(sim, model) or self.g_registration(sim, model)
+        elif client == "registrar" and self.cfg.get("box_conversion") and not self.box_registered and self.n > 4 and rng.random() < 0.25:
+            # a class-level registration: the caller's own container class gets a conversion function
+            self.box_registered = True
+            op = {"k": "reg.RegisterConversion", "t": "py", "m": "register_box_conversion", "a": [], "reg": {"kind": "RegisterConversion"}}
         elif client == "registrar":
             op = self.g_registration(sim, model)
         elif client == "saboteur":
@@ -376,6 +381,13 @@ class C15Gen:
             return self.qop(rng.choice(table))
         if client == "validator":
             s = self.leaf_scalar(model, t, registered)
+            if rng.random() < 0.2:
+                # one object, asked twice (the per-Array validity memo is a cache as well); amounts
+                # include 0, for which a reciprocal conversion raises ZeroDivisionError
+                obj = rng.choice([["A", rng.choice(["L", "T", "N"]), [0.0, v, self.value()], u, c], ["A", "L", [v, 0.0], u, c], s, ["FS", abs(v), [1, 2], u, c]])
+                d = self.qop(["twice", obj, rng.choice(["IsValid", "IsValid", "CheckValidity"]), []])
+                d["x"] = [{"o": "twice_same", "p": "C15", "id": "C15.warm_cold"}]
+                return d
             table = [
                 ["m", s, "IsValid", []],
                 ["m", s, "CheckValidity", []],
@@ -439,6 +451,7 @@ class C15Gen:
             ["mk", s1, "CreateCopy", {"unit": u2, "category": c}],
             ["db", "Convert", [t, u, u2, v]],
             ["db", "Convert", [c, u, u2, [v, 1.0]]],
+        ] + ([["db", "Convert", [t, u, u2, {"box": [v, 2.0]}]]] * 3 if self.cfg.get("box_conversion") else []) + [
             ["m", ["Q", u, c, None], "ConvertScalarValue", [v, u2]],
             ["bin", "lt", s1, ["S", self.value(), u2, None]],
             ["bin", "eq", s1, s2],
@@ -663,6 +676,7 @@ class C15:
         cfg["cold_checks"] = 12 if tier == "quick" else 10 ** 6
         cfg["repeat_rate"] = rng.choice([0.05, 0.15, 0.3])
         cfg["other_db_rate"] = rng.choice([0, 0.1, 0.2, 0.4])
+        cfg["box_conversion"] = rng.random() < 0.25
         cfg["sweep_rate"] = rng.choice([0, 0, 0, 0.1]) if tier == "quick" else rng.choice([0, 0.1, 0.3])
         return cfg
 
